@@ -66,6 +66,16 @@ CHECKS = {
          "Held on 36 (quick) / 240 (thorough) generated repositories over 12 migrate modes (include/exclude, --above, --everything, include-ref/exclude-ref, --fixup, --no-rewrite, export, export-after-import round trip) with merges incl. octopus, orphan branches, annotated/lightweight/nested tags, symlinks, executables, nested .gitattributes, raw commit encodings; 10 recorded known findings are reproduced and attributed by trigger.",
          "Own matcher restricted to four unambiguous pattern forms; annotated-tag messages differing only in the final newline are counted, not judged, unless the tag was not selected; an --exclude pattern that un-tracks an existing LFS file is observed only.",
          "DESIGN.md §5 C12"),
+ "C04": ("exploration",
+         "runtime monitor: generated source repositories pushed to a fake LFS server, then seeded consumer scenarios (clone, skip-smudge clone + fetch/pull/checkout, include/exclude, reference store, pre-seeded objects, edited/deleted/replaced/read-only work files); reference model + own gitignore matcher cross-checked against git check-ignore; pre/post SHA-256 snapshots of every work file and object",
+         "Held on 96 (quick) / 2400 (thorough) scenarios: every selected pointer path has a hash-valid object and (clone/pull/checkout) the original bytes, excluded/skipped paths stay the recorded pointer, and pull/checkout never touch a work file whose bytes were not the recorded pointer.",
+         "Selection follows gitignore semantics for 11 generated pattern forms only; a deleted work file may be recreated; git lfs checkout of an object that is only in a reference store is not judged; driver runs as root (read-only bit cannot block writes).",
+         "DESIGN.md §5 C04"),
+ "C13": ("exploration",
+         "runtime monitor: fsck runs over generated repositories with seeded object corruption (deletion, truncation, extension, bit flip, replacement) and non-pointer blobs under tracked patterns; oracle = reference model over plain git plumbing, Git's check-attr on a temporary index, own SHA-256/inode snapshots of the store",
+         "Held on 960 (quick) / 12000 (thorough) fsck runs over {no argument, commit, range} x {default, --objects, --pointers} x {dry-run, real}: exit status, named oids/paths, byte-identical move to lfs/bad, intact objects untouched (bytes and inode), dry-run changes nothing; 3 recorded known findings attributed by trigger.",
+         "Range semantics use the weakest reading; oids named only by non-canonical pointer text, objects reached through both excluded and non-excluded paths, and index-only pointer problems are not judged.",
+         "DESIGN.md §5 C13"),
 }
 
 NOT_YET = {}
